@@ -723,6 +723,16 @@ where
         let log_store = storage.log_store();
         let meta_store = storage.meta_store();
         let disk_len = log_store.last_index();
+        // Entries found on disk may have been written but never fsynced before the previous
+        // process died (they survived in the OS page cache). They are reported durable below,
+        // so fsync them first; if that fails nothing is reported durable.
+        let synced_len =
+            if disk_len > 0 && !log_store.is_write_durable() && log_store.flush().is_err() {
+                error!("Failed to fsync the log store at startup");
+                0
+            } else {
+                disk_len
+            };
 
         let FlushPolicy::Batch {
             idle_flush_interval_ms,
@@ -810,7 +820,7 @@ where
                 max_index: AtomicU64::new(max_index),
                 last_purged_index: AtomicU64::new(last_purged_index_val),
                 last_purged_term: AtomicU64::new(last_purged_term_val),
-                durable_index: AtomicU64::new(disk_len),
+                durable_index: AtomicU64::new(synced_len),
                 next_id: AtomicU64::new(disk_len + 1),
                 write_notify: Arc::new(Notify::new()),
                 command_sender: command_sender.clone(),
